@@ -166,7 +166,7 @@ def main(ctx):
     trace = ctx.path("trace.ndjson")
     crashed = not run_harness(ctx, ["record", "C01", "--out", trace, "--n", 400 if thorough else 22, "--opt", "shapes=" + shapes,
                  "--opt", "bindir=" + bindir, "--opt", "thorough=%d" % (1 if thorough else 0),
-                 "--opt", "dir=" + ctx.path("bigfiles"), "--opt", "flat128=%d" % (1 if thorough else 0), "--opt", "cmdevery=%d" % (4 if thorough else 5)], trace, "record")
+                 "--opt", "dir=" + ctx.path("bigfiles"), "--opt", "flat128=%d" % (1 if thorough else 2), "--opt", "cmdevery=%d" % (4 if thorough else 5)], trace, "record")
     events = []
     for l in open(trace) if os.path.exists(trace) else []:
         try:
